@@ -3,7 +3,7 @@ defect10: the quantification constraint of an(...) is ignored by the translator.
 Exactly(1))` / AtMost / AtLeast fail in memory exactly like the(...) does when the number of solutions is not the
 required one; the translated query just returns the rows. (the(...) itself is handled: .one().)
 
-Run:  cd /tmp/hunt2/C07 && PYTHONPATH=/tmp/hunt2/C07/src:/tmp/hunt2/C07 /venv/bin/python HUNT/defect10.py
+Run:  cd /tmp/hunt2/C07 && PYTHONPATH=/repo/src:/tmp/hunt2/C07 /venv/bin/python HUNT/defect10.py
 Exits non-zero when the translated statement and the in-memory evaluation disagree (the defect is present).
 """
 import importlib, os, sys, tempfile, warnings
